@@ -163,6 +163,30 @@ def _huge_alphabet(rnd):
     return [big] + small[:rnd.randint(3, 5)]
 
 
+def _failing_history(rnd):
+    """Operations that FAIL (a version-like variable compared with a literal that is no version: the merge raises
+    InvalidSpecifier - on any tree) in between operations that need the nested simplifiers (factorisation).  An
+    operation that raised must leave nothing behind either."""
+    fail = ['sys_platform == "linux" and platform_release >= "5.1.0-generic" or sys_platform == "linux" and platform_release >= "6.1.0-generic"',
+            'platform_release >= "5.1.0-generic" and platform_release < "6.1.0-generic"',
+            'os_name == "a" and platform_release == "5.1-x" or os_name == "a" and platform_release != "5.2-y"',
+            'os_name == "nt" and platform_release > "10.0-rtm" or os_name == "nt" and platform_release > "11.0-rtm"']
+    probes = ['os_name == "nt" and python_version < "3.8" or os_name == "nt" and python_version >= "3.8"',
+              '(os_name == "nt" or sys_platform == "x") and (os_name == "nt" or sys_platform == "y")',
+              'os_name == "a" and sys_platform == "x" or os_name == "a" and sys_platform == "y" or os_name == "b"',
+              'python_version >= "3.8" and os_name == "a" or python_version >= "3.8" and os_name != "a"']
+    small = ['os_name == "nt"', 'python_version >= "3.8"', 'sys_platform == "x"']
+    ops = [["parse", p] for p in probes] + [["or", probes[0], small[2]], ["and", probes[1], small[1]]]
+    for i in range(rnd.randint(24, 40)):
+        f = rnd.choice(fail)
+        ops.append(rnd.choice([["parse", f], ["and", f, rnd.choice(small)], ["or", rnd.choice(small), f]]))
+        if i % 8 == 7:
+            ops.append(["parse", rnd.choice(probes)])
+    ops += [["parse", p] for p in probes] + [["or", probes[0], small[2]], ["and", probes[1], small[1]],
+                                              ["or", probes[2], probes[3]], ["and", probes[0], probes[2]]]
+    return fail + probes + small, ops
+
+
 def _alphabet(rnd):
     k = rnd.random()
     atoms = []
@@ -416,6 +440,11 @@ def run(ctx):
         ctx.c10_perms = 1 if huge else None
         if huge:
             ctx.shape("alphabet:huge-group")
+        failing = (h == 1 and ctx.shard % 2 == 1) if ctx.tier == "quick" else (h % 10 == 2)
+        if failing:
+            atoms, ops = _failing_history(rnd)
+            ctx.shape("history:failing-operations")
+            ctx.c10_perms = 2
         ctx.cases += 1
         ctx.current_case = {"kind": "history", "atoms": atoms, "ops": ops}
         ctx.guarded((200.0 if huge else 120.0) if ctx.tier == "quick" else 400.0, _run_history, ctx, atoms, ops,
